@@ -625,27 +625,46 @@ def kstep (s : St) (op : List String) (impl : String) : St × String :=
         let modelEncoded := k1.pending > k.pending
         let id := ((s.img? n).map (·.1)).getD 0
         -- the picture the model transmits for an opaque image: the scaler model on the harness's pixels, as a digest
+        let gw := ImageTerm.termCellW s.xpix s.cols
+        let gh := ImageTerm.termCellH s.ypix s.rows
+        -- a negative box (API misuse, modelled): `image.Rect(0, 0, nw, nh)` with negative extents is the rectangle
+        -- mirrored to negative coordinates — `Bounds().Max` is (0,0), so the cell size is 0x0, but it has |nw| x |nh|
+        -- pixels, which are scaled into, encoded and transmitted
+        let negRaw : Option (Nat × Nat) :=
+          if w < 0 ∨ h < 0 then
+            match ImageTerm.resizeRawBox floatOps k.wPix k.hPix w h gw gh with
+            | .ok (rw, rh) => some (rw.natAbs, rh.natAbs)
+            | .error _ => none
+          else none
         let digest : String :=
           match k.opaqueNo with
           | some no =>
-            if w < 0 ∨ h < 0 then "" else
             let src : Scaler.Img8 := ⟨.nrgba, k.wPix, k.hPix,
               Array.ofFn (n := k.wPix * k.hPix) fun i =>
                 ⟨(37 * (4 * i.val) + 11 * no + 200) % 256, (37 * (4 * i.val + 1) + 11 * no + 200) % 256,
                  (37 * (4 * i.val + 2) + 11 * no + 200) % 256, 255⟩⟩
-            let gw := ImageTerm.termCellW s.xpix s.cols
-            let gh := ImageTerm.termCellH s.ypix s.rows
-            match Scaler.resizeImg floatOps src w.toNat h.toNat gw gh with
-            | .ok img => "#" ++ hex8 (fnvPixels img)
-            | .error _ => ""
+            match negRaw with
+            | some (rw, rh) => "#" ++ hex8 (fnvPixels (Scaler.scale false src rw rh))
+            | none =>
+              if w < 0 ∨ h < 0 then "" else
+              match Scaler.resizeImg floatOps src w.toNat h.toNat gw gh with
+              | .ok img => "#" ++ hex8 (fnvPixels img)
+              | .error _ => ""
           | none => ""
+        let pxStr : String :=
+          match negRaw with
+          | some (rw, rh) => s!"{rw}x{rh}"
+          | none => (((fields mcanon)[2]?.getD "px=?").drop 3).toString
         let s1 : St := if modelEncoded then
             { s with kb := KittyTerm.update s.kb id (KittyTerm.resizeGen (s.kb id) s.encPx.size),
-                     encPx := s.encPx.push ((((fields mcanon)[2]?.getD "px=?").drop 3).toString ++ digest) }
+                     encPx := s.encPx.push (pxStr ++ digest) }
           else s
         -- (whatever the implementation says about pending data: a resize to a non-empty pixel size has new data)
         let implPxNow := (((fields impl)[2]?.getD "px=?").drop 3).toString
-        let implPx := if impl ≠ "panic" ∧ dataCode implPxNow ≠ 0 ∧ !implPxNow.startsWith "0x" ∧ !implPxNow.endsWith "x0" then implPxNow else k1.implPx
+        -- (a negative box is API misuse — the picture then lies at negative coordinates and `Bounds().Max` says nothing
+        -- about it: no expectation about the data from there on, until the next proper Resize)
+        let implPx := if w < 0 ∨ h < 0 then ""
+          else if impl ≠ "panic" ∧ dataCode implPxNow ≠ 0 ∧ !implPxNow.startsWith "0x" ∧ !implPxNow.endsWith "x0" then implPxNow else k1.implPx
         (s1.setImg n { k1 with iw := cw, ih := chh, need := k1.need || encoded, implPx := implPx }, s!"{mcanon}\t{impl}\t{verdict}")
     | _, _, _ => (s, bad)
   | "kdraw" :: n :: c :: r :: win =>
